@@ -26,6 +26,11 @@ COQ = os.path.join(VERIF, "coq")
 EVIDENCE = os.path.join(VERIF, "evidence") if os.path.realpath(REPO) == "/repo" else os.path.join(BUILD, "evidence_scratch")
 CORPUS = os.path.join(VERIF, "corpus")
 REPLAY = os.path.join(BUILD, "replay")
+# extra passes of the drift sentinel (check.py) run as sub-processes and must not overwrite the main pass's files
+_PASS = os.environ.get("VERIF_ESCALATION_PASS")
+if _PASS:
+  EVIDENCE = os.path.join(BUILD, "evidence_pass" + _PASS)
+  REPLAY = os.path.join(BUILD, "replay", "pass" + _PASS)
 PY = "/venv/bin/python"
 NCPU = os.cpu_count() or 4
 
@@ -513,3 +518,71 @@ def coq_obligations(res: Result, pid, extra_targets=()):
 
 def rng(seed, *salt):
   return random.Random(f"{seed}:" + ":".join(map(str, salt)))
+
+
+# ---------------------------------------------------------------------------------------
+# Drift sentinel (DESIGN 2.2): a digest of the source each property is anchored in, compared with the digest the
+# models were last validated against (harness/digests.json, committed; written only by harness/update_digests.py).
+# A changed digest is NEVER a verdict: it only makes a quick run explore more (check.py runs extra passes with
+# other seeds), so that a small edit to modelled code gets a deeper differential even in the quick tier.
+
+def _norm_digest(path):
+  data = open(path, "rb").read()
+  if path.endswith(".py"):
+    import ast  # pylint: disable=import-outside-toplevel
+    try:
+      tree = ast.parse(data)
+      for n in ast.walk(tree):   # docstrings do not count
+        body = getattr(n, "body", None)
+        if isinstance(body, list) and body and isinstance(body[0], ast.Expr) and \
+           isinstance(getattr(body[0], "value", None), ast.Constant) and isinstance(body[0].value.value, str):
+          body[0].value.value = ""
+      return sha(ast.dump(tree).encode())
+    except SyntaxError:
+      return sha(data)
+  txt = data.decode("utf-8", "replace")
+  if path.endswith((".cc", ".h")):
+    txt = re.sub(r"/\*.*?\*/", "", txt, flags=re.S)
+    txt = re.sub(r"//[^\n]*", "", txt)
+  elif path.endswith((".pytd", ".pyi")):
+    txt = re.sub(r"(?m)^\s*#[^\n]*$", "", txt)
+  return sha(re.sub(r"\s+", " ", txt).encode())
+
+
+def anchored_files(pid):
+  for l in open(os.path.join(VERIF, "properties.jsonl")):
+    p = json.loads(l)
+    if p["id"] == pid:
+      return p["anchors"]["files"]
+  return []
+
+
+def source_digests(pid, repo=None):
+  repo = repo or REPO
+  out = {}
+  for rel in anchored_files(pid):
+    full = os.path.join(repo, rel)
+    if os.path.isdir(full):
+      for root, _, files in sorted(os.walk(full)):
+        for f in sorted(files):
+          if f.endswith((".py", ".cc", ".h", ".pytd", ".pyi")) and not f.endswith("_test.py"):
+            fp = os.path.join(root, f)
+            out[os.path.relpath(fp, repo)] = _norm_digest(fp)
+    elif os.path.exists(full):
+      out[rel] = _norm_digest(full)
+    else:
+      out[rel] = "missing"
+  return out
+
+
+def source_drift(pid):
+  """Files anchored by the property whose normalised digest differs from the validated one ([] = no drift;
+  None = no baseline recorded)."""
+  path = os.path.join(VERIF, "harness", "digests.json")
+  if not os.path.exists(path):
+    return None
+  base = json.load(open(path)).get(pid)
+  if base is None:
+    return None
+  cur = source_digests(pid)
+  return sorted(f for f in set(base) | set(cur) if base.get(f) != cur.get(f))
